@@ -6,6 +6,7 @@ import (
 	"flag"
 	"fmt"
 	"os"
+	"runtime/debug"
 	"sort"
 	"strconv"
 	"strings"
@@ -445,6 +446,9 @@ func init() {
 		var once sync.Once
 		return func(tag string, raw []byte, st *Stats, wk *worker) {
 			once.Do(func() {
+				// runaway recursion must end as Go's "fatal error: stack overflow" (which the driver attributes to the
+				// document in flight), not as the kernel killing the process for the heap each frame allocates
+				debug.SetMaxStack(64 << 20)
 				atExit = append(atExit, func() {
 					if *traceOut == "" {
 						return
